@@ -450,7 +450,7 @@ pub fn generate_c_driver(number_of_arguments: usize, heap_size: Option<usize>) -
 
     let mut asm_main_call = "asm_main(heap".to_string();
     for i in 1..=number_of_arguments {
-        write!(&mut asm_main_call, ", atoi(argv[{i}])")
+        write!(&mut asm_main_call, ", atoll(argv[{i}])")
             .expect("Could not append to String in generation of C driver");
     }
     asm_main_call.push(')');
